@@ -79,14 +79,20 @@ def hang_where(case):
         return ""
 
 
+_hangs_confirmed = [0]
+
+
 def judge(case, r):
     out = []
     lang = case["lang"]
     base = {"lang": lang, "base": case.get("base", "")}
     if r.timeout:
+        # a hang is confirmed with a 60 s limit (inputs are a few hundred bytes; a normal run takes milliseconds); once this worker
+        # has confirmed one, later candidates get 30 s - a tree that hangs on a whole family of inputs must not eat the deadline
         r2 = run.unc(case["src"], case["cfg"] or None, lang, args=case.get("args", ()), flavour=case.get("flavour", "asan"),
-                     quiet=case.get("quiet", False), env=case.get("env"), timeout=60.0)
+                     quiet=case.get("quiet", False), env=case.get("env"), timeout=30.0 if _hangs_confirmed[0] else 60.0)
         if r2.timeout:
+            _hangs_confirmed[0] += 1
             out.append(dict(base, clause="hang", where=hang_where(case)))
             return out
         r = r2
@@ -371,7 +377,7 @@ def check(ctx):
             print("HARNESS-NONDETERMINISM"); raise SystemExit(2)
         agg = bee.drive(ctx, groups, pool)
         ctx.log("singles done: runs=%d outcomes=%s" % (agg["runs"], agg["outcomes"]))
-        agg2 = bee.drive_cases(ctx, cases, pool, flavour="asan")
+        agg2 = bee.drive_cases(ctx, cases, pool, chunksize=4, flavour="asan")
     outcomes = dict(agg2["outcomes"])
     for k, v in agg["outcomes"].items():
         outcomes[k] = outcomes.get(k, 0) + v
